@@ -19,8 +19,7 @@ From GJ Require Import Base.Bytes Spec.Json Model.Enc Model.Path Gen.PathShape.
 Import ListNotations.
 Open Scope N_scope.
 
-(* the node chain as the builder links it: a recursive node that is last keeps
-   the selector child it was created with; otherwise chain() replaced it *)
+(* the node chain as the builder links it *)
 Inductive xnode := XSel (n : list N) | XIdx (i : Z) | XAll | XRec (n : list N).
 Definition chain := list xnode.
 
@@ -30,7 +29,7 @@ Fixpoint expand (ns : list pnode) : chain :=
   | NSel n :: r => XSel n :: expand r
   | NIdx i :: r => XIdx i :: expand r
   | NAll :: r => XAll :: expand r
-  | NRec n :: r => XRec n :: match r with [] => [XSel n] | _ => expand r end
+  | NRec n :: r => XRec n :: expand r
   end.
 
 Inductive lookup := LErr | LNo | LFound (child : chain).
@@ -41,10 +40,12 @@ Definition outcome := (option (list res) * chain)%type.
 
 Section Eval.
   Variable sems : node_sems.
+  Variable scalar_nothing : bool.      (* a scalar reached with a selector still to apply contributes nothing *)
 
   Definition by_field (f : field_sem) (sel k : list N) (child : chain) : lookup :=
     match f with
     | FErr => LErr
+    | FNone => LNo
     | FEqChild => if list_eqb sel k then LFound child else LNo
     | FUnknown => LErr
     end.
@@ -62,6 +63,7 @@ Section Eval.
   Definition by_index (f : index_sem) (self : chain) (sel : option Z) (idx : nat) (child : chain) : lookup :=
     match f with
     | IErr => LErr
+    | INone => LNo
     | IEqChild => match sel with
                   | Some i => if Z.eqb i (Z.of_nat idx) then LFound child else LNo
                   | None => LErr
@@ -101,20 +103,29 @@ Section Eval.
           end
       end.
 
-    (* map.go DecodePath, the loop over the members *)
+    (* map.go DecodePath, the loop over the members: what the member itself contributes, and -- when the cursor
+       stands on a recursive node -- what lies further down in the member's value *)
+    Definition is_rec (st : chain) : bool := match st with XRec _ :: _ => true | _ => false end.
     Fixpoint obj_loop (st : chain) (ms : list (list N * bool * jv)) (acc : list res) : outcome :=
       match ms with
       | [] => (Some acc, st)
       | (k, _, x) :: r =>
-          match do_field st k with
-          | LErr => (None, st)
-          | LNo => obj_loop st r acc
-          | LFound [] => obj_loop st r (acc ++ [RTree x])
-          | LFound child =>
-              match evk x child with
-              | (Some rs, _) => obj_loop st r (acc ++ rs)
-              | (None, st') => (None, st')
-              end
+          let own : chain + list res :=
+            match do_field st k with
+            | LErr => inl st
+            | LNo => inr []
+            | LFound [] => inr [RTree x]
+            | LFound child => match evk x child with (Some rs, _) => inr rs | (None, st') => inl st' end
+            end in
+          match own with
+          | inl st' => (None, st')
+          | inr rs =>
+              if is_rec st then
+                match evk x st with
+                | (Some below, _) => obj_loop st r (acc ++ rs ++ below)
+                | (None, st') => (None, st')
+                end
+              else obj_loop st r (acc ++ rs)
           end
       end.
   End Loops.
@@ -122,8 +133,8 @@ Section Eval.
   (* interface.go DecodePath *)
   Fixpoint ev (v : jv) (st : chain) {struct v} : outcome :=
     match v with
-    | JLeaf (TStr s) => (Some [RRaw s], st)            (* the decoded bytes, without quotes *)
-    | JLeaf _ => (Some [RTree v], st)
+    | JLeaf (TStr s) => (Some (if scalar_nothing then [] else [RRaw s]), st)     (* before the repair: the decoded bytes, without quotes *)
+    | JLeaf _ => (Some (if scalar_nothing then [] else [RTree v]), st)
     | JArr es => arr_loop ev st es 0 []
     | JObj ms => obj_loop ev st ms []
     end.
@@ -167,19 +178,18 @@ Fixpoint ref_eval (ns : list pnode) (v : jv) : list jv :=
   | NRec n :: r => flat_map (ref_eval r) (desc n v)
   end.
 
-(* the documents on which the implementation's known deviations stay silent:
-   every selector meets the kind of value it selects from, and there is no
-   recursive descent *)
+(* where the implementation's one remaining deviation stays silent: there is no recursive descent in the path
+   (`fits` is then true of every document; it is kept as a function of the document for the statement's shape) *)
 Fixpoint fits (ns : list pnode) (v : jv) : bool :=
   match ns with
   | [] => true
-  | NSel n :: r => match v with JObj ms => forallb (fits r) (members_named n ms) | _ => false end
+  | NSel n :: r => match v with JObj ms => forallb (fits r) (members_named n ms) | _ => true end
   | NIdx i :: r => match v with
                    | JArr es => if ((i <? 0) || (Z.of_nat (length es) <=? i))%Z then true else
                                 match nth_error es (Z.to_nat i) with Some e => fits r e | None => true end
-                   | _ => false
+                   | _ => true
                    end
-  | NAll :: r => match v with JArr es => forallb (fits r) es | _ => false end
+  | NAll :: r => match v with JArr es => forallb (fits r) es | _ => true end
   | NRec _ :: _ => false
   end.
 
@@ -197,7 +207,7 @@ Definition is_root (nodes : list pnode) : bool := match nodes with [] => true | 
 
 Definition extract_text (path : list N) (doc : jv) : list N :=
   match build path with
-  | BOk nodes _ _ => show_outcome (fst (extract_call path_node_sems extract_on_copy (is_root nodes) (expand nodes) doc))
+  | BOk nodes _ _ => show_outcome (fst (extract_call path_node_sems scalar_selects_nothing extract_on_copy (is_root nodes) (expand nodes) doc))
   | BErr => [66]
   | BStuck => [33]
   | BFuel => [63]
@@ -207,6 +217,6 @@ Definition extract_text (path : list N) (doc : jv) : list N :=
 Definition extract_history (path : list N) (docs : list jv) : list N :=
   match build path with
   | BOk nodes _ _ =>
-      concat (map (fun o => show_outcome o ++ [59]) (run path_node_sems extract_on_copy (is_root nodes) (expand nodes) docs))
+      concat (map (fun o => show_outcome o ++ [59]) (run path_node_sems scalar_selects_nothing extract_on_copy (is_root nodes) (expand nodes) docs))
   | _ => [66]
   end.
